@@ -650,6 +650,56 @@ def check_list_count(P, ctx, rule='C04.count-tracks-links'):
     ctx.floor(rule, 6)
 
 
+def check_tuple_terminated(P, ctx):
+    """Tuple keeps its elements in a Terminal-terminated array that every reader dereferences without a test (iter_init, cmp,
+    show, rem ...): a function that replaces the array installs a real buffer (the result of malloc / realloc, never NULL — only
+    the destructor drops it) and a fresh buffer gets its Terminal mark before the function returns normally."""
+    rule = 'C04.tuple-terminated'
+    u = P.units['src/Tuple.c']
+    ITEMS = ('arrow', ('param', 0), 'items')
+    n_fn = 0
+    for fname, fn in sorted(u['functions'].items()):
+        if fn.get('body') is None or not fn['params']:
+            continue
+        g = P.cfg(fn)
+        N = util.Norm(P, fn)
+        stores, marks = [], []
+        for n in g.live():
+            if n['expr'] is None:
+                continue
+            for ev in util.expr_events(n['expr'], n):
+                if ev['t'] != 'write' or ev['op'] != '=':
+                    continue
+                lhs = N.canon(ev['lhs'])
+                if lhs == ITEMS:
+                    stores.append((n, ev))
+                elif lhs[0] == 'idx' and lhs[1] == ITEMS and ev['rhs'] is not None and ir.top_nocast(N.canon(ev['rhs'])) == ('global', 'Terminal'):
+                    marks.append(n)
+        if not stores:
+            continue
+        n_fn += 1
+        ctx.fn(fn)
+        bad = None
+        for (n, ev) in stores:
+            r = ir.top_nocast(ev['rhs']) if ev['rhs'] is not None else None
+            if r is None or ir.is_null(ev['rhs']):
+                # dropping the array is the destructor's business only
+                if fname != P.slot('Tuple', 'New', 'destruct', required=False):
+                    bad = 'the element array is set to NULL at %s; readers index it without a test' % g.describe(n)
+                continue
+            if not (r[0] == 'call' and ir.callee_name(r) in ('malloc', 'realloc', 'calloc')):
+                bad = bad or 'the element array is replaced by something that is not a fresh allocation at %s' % g.describe(n)
+                continue
+            if ir.callee_name(r) == 'realloc':
+                continue        # keeps the old content; the extents that carry the mark along are C04.shift-extent / capacity
+            # every normal exit after a fresh buffer passes a store of the Terminal mark
+            if not g.must_pass(g.exit, [m['id'] for m in marks], start=n['id']):
+                bad = bad or 'a path from the new array at %s to a normal return stores no Terminal mark' % g.describe(n)
+        ctx.check(bad is None, rule, fname, site(fn), 'a function that replaces the element array installs a fresh non-NULL buffer and terminates it with Terminal before it returns',
+                  [bad] if bad else None)
+    ctx.floor(rule, 5)
+
+
 def run(ctx, load):
     P = load(UNITS, 'default')
     ctx.stats['units'] = set(UNITS)
@@ -670,6 +720,17 @@ def run(ctx, load):
     ctx.floors.pop(('C05.fresh-slot', ctx.config), None)
     ctx.floor('C04.fresh-slot', 5)
     check_list_count(P, ctx)
+    check_tuple_terminated(P, ctx)
+    # sort exchanges elements with swap(), whose fallback is memswap: every byte of both operands must be exchanged
+    from .rules_c10 import check_memswap
+    before = len(ctx.obs)
+    check_memswap(P, ctx)
+    for o in ctx.obs[before:]:
+        o['rule'] = 'C04.sort-exchanges-whole-elements'
+    for k in list(ctx.floors):
+        if k[0].startswith('C10.'):
+            ctx.floors.pop(k)
+    ctx.floor('C04.sort-exchanges-whole-elements', 2)
 
 
 EXPLANATION = (
